@@ -120,7 +120,66 @@ static int Freeze(const std::string &dir, int n) {
   return 0;
 }
 
+// Larger streams: long symbol sequences with thousands of distinct symbols (high-precision rANS tables, raw scheme
+// with 12..18-bit symbol lengths, valence coder on >= 1000 faces) that the small corpus cannot contain.
+static int FreezeLarge(const std::string &dir) {
+  std::ofstream dg(dir + "/digests_large.txt");
+  int written = 0;
+  for (int k = 0; k < 34; ++k) {
+    Rng r(20261002, vf::HashStr("C05-freeze-large"), k);
+    vf::Geo g;
+    vf::EncOpts o;
+    const bool pc = k % 3 == 0 || k >= 24;
+    vf::Topo t;
+    const bool wide_alphabet = k >= 24;  // 20000 values over 2^15: raw scheme at its high-precision rANS settings
+    if (wide_alphabet) { t.nverts = 20000; t.name = "points"; for (uint32_t i = 0; i < t.nverts; ++i) t.coord.push_back({0, 0, 0}); }
+    else if (pc) { t.nverts = 3000 + 500 * (k % 5); t.name = "points"; for (uint32_t i = 0; i < t.nverts; ++i) t.coord.push_back({static_cast<float>(r.uniform(-1, 1)), static_cast<float>(r.uniform(-1, 1)), static_cast<float>(r.uniform(-1, 1))}); }
+    else { vf::GridPatch(t, 30 + k, 20 + (k % 7), k % 4 == 1, k % 8 == 5); }
+    vf::GenParams gp;
+    gp.point_cloud = pc;
+    gp.allow_unused = false;
+    std::vector<vf::AttrPlan> plans = {{GeometryAttribute::POSITION, DT_FLOAT32, 3, false, 0, 0, pc ? 1 : 0},
+                                       {GeometryAttribute::GENERIC, k % 2 ? DT_FLOAT32 : DT_UINT16, 2, false, 0, 0, 1},
+                                       {GeometryAttribute::TEX_COORD, DT_FLOAT32, 2, false, pc ? 0 : 1, 0.02, 1}};
+    g = vf::BuildGeo(r, t, plans, gp);
+    // noisy values -> many distinct residual symbols
+    for (auto &a : g.atts) if (a.dt == DT_FLOAT32) for (size_t i = 0; i < a.nvals * a.nc; ++i) vf::PutF(a.data.data() + 4 * i, static_cast<float>(r.uniform(-1, 1)));
+    for (auto &a : g.atts) if (a.dt == DT_UINT16) for (size_t i = 0; i < a.nvals * a.nc; ++i) { uint16_t v = static_cast<uint16_t>(r.below(1u << (9 + k % 7))); memcpy(a.data.data() + 2 * i, &v, 2); }
+    if (wide_alphabet) {
+      g.atts.resize(2);  // POSITION + integer GENERIC
+      g.atts[1].dt = DT_UINT16; g.atts[1].nc = 1; g.atts[1].data.assign(g.atts[1].nvals * 2, 0);
+      // skewed distribution over a few thousand symbols: entropy well below the bit length, so the raw scheme wins
+      for (size_t i = 0; i < g.atts[1].nvals; ++i) { double x = std::fabs(r.gauss()) * (300 + 100 * (k % 5)); uint16_t v = static_cast<uint16_t>(x > 8191 ? 8191 : x); memcpy(g.atts[1].data.data() + 2 * i, &v, 2); }
+    }
+    o.expert = true;
+    o.method = pc ? (k % 2) : (k % 5 == 4 ? 0 : 1);
+    if (wide_alphabet) o.method = 0;
+    o.eb_method = k % 2 ? 2 : 0;
+    o.enc_speed = o.dec_speed = (k % 4 == 0) ? 10 : (k % 4 == 1 ? 5 : (k % 4 == 2 ? 2 : 7));
+    o.qbits = {10 + k % 9, 11 + k % 6, 9 + k % 8};
+    o.pred = {-100, -100, -100};
+    if (wide_alphabet) { o.qbits = {8, -1}; o.pred = {-100, draco::PREDICTION_NONE}; const int sp[] = {0, 2, 0, 1, 3}; o.enc_speed = o.dec_speed = sp[k % 5]; }
+    if (k % 3 != 1) o.pred[1] = draco::PREDICTION_NONE;  // integer values coded directly: raw scheme with 2^9..2^15 distinct symbols
+    std::unique_ptr<Mesh> mesh; std::unique_ptr<PointCloud> pcu; const PointCloud *p;
+    if (g.is_mesh) { mesh = vf::ToMesh(g); p = mesh.get(); } else { pcu = vf::ToPointCloud(g); p = pcu.get(); }
+    vf::EncResult er = vf::Encode(g, *p, mesh.get(), o);
+    if (!er.status.ok()) { fprintf(stderr, "large %d refused: %s\n", k, er.status.error_msg()); continue; }
+    Status st;
+    std::string d = DecodeDigest(er.bytes, 0, &st);
+    if (!st.ok()) continue;
+    char name[32];
+    snprintf(name, sizeof name, "L%03d.drc", written);
+    std::ofstream f(dir + "/" + name, std::ios::binary);
+    f.write(er.bytes.data(), er.bytes.size());
+    dg << name << " " << d << "\n";
+    printf("%s %zu bytes\n", name, er.bytes.size());
+    ++written;
+  }
+  return 0;
+}
+
 int main(int argc, char **argv) {
+  for (int i = 1; i + 1 < argc; ++i) if (std::string(argv[i]) == "--freeze-large") return FreezeLarge(argv[i + 1]);
   for (int i = 1; i < argc; ++i) {
     if (std::string(argv[i]) == "--freeze" && i + 2 < argc) return Freeze(argv[i + 1], atoi(argv[i + 2]));
     if (std::string(argv[i]) == "--legacy-digests" && i + 1 < argc) {
@@ -135,6 +194,7 @@ int main(int argc, char **argv) {
   frozen = ListDrc(kCorpusDir);
   legacy_dg = LoadDigests(kLegacyDigests);
   frozen_dg = LoadDigests(std::string(kCorpusDir) + "/digests.txt");
+  { auto large = LoadDigests(std::string(kCorpusDir) + "/digests_large.txt"); frozen_dg.insert(large.begin(), large.end()); }
   return vf::RunHarness(argc, argv, "C05", [](int64_t k, Rng &r, Reporter &rep) {
     const int64_t nl = static_cast<int64_t>(legacy.size()), nfz = static_cast<int64_t>(frozen.size());
     if (nfz < 100 || legacy_dg.empty() || frozen_dg.size() != frozen.size()) { fprintf(stderr, "corpus missing or incomplete\n"); abort(); }
